@@ -16,14 +16,30 @@ theorem mem_bounds (n : SNode) (b : Bound) :
 /-- the atoms a node still admits -/
 def den (re : Bytes → Bytes → Bool) (n : SNode) (v : Atom) : Prop :=
   n.err = false ∧ Kind.has n.kind v = true ∧ (∀ s, n.scalar = some s → v.same s = true) ∧
-  ∀ b ∈ n.bounds, boundHolds re b v = true
+  (∀ b, n.lower = some b → boundHolds re b v = true) ∧
+  (∀ b, n.upper = some b → boundHolds re b v = true) ∧
+  (∀ b ∈ n.checks, boundHolds re b v = true)
+
+theorem mem_lower {n : SNode} {b : Bound} (h : n.lower = some b) : b ∈ n.bounds :=
+  (mem_bounds n b).2 (Or.inl h)
+theorem mem_upper {n : SNode} {b : Bound} (h : n.upper = some b) : b ∈ n.bounds :=
+  (mem_bounds n b).2 (Or.inr (Or.inl h))
+theorem mem_checks {n : SNode} {b : Bound} (h : b ∈ n.checks) : b ∈ n.bounds :=
+  (mem_bounds n b).2 (Or.inr (Or.inr h))
+
+theorem den_bounds {re : Bytes → Bytes → Bool} {n : SNode} {v : Atom} (h : den re n v) {b : Bound}
+    (hb : b ∈ n.bounds) : boundHolds re b v = true := by
+  rcases (mem_bounds n b).1 hb with h' | h' | h'
+  · exact h.2.2.2.1 b h'
+  · exact h.2.2.2.2.1 b h'
+  · exact h.2.2.2.2.2 b h'
 
 structure WF (n : SNode) : Prop where
   lower : ∀ b, n.lower = some b → isLower b.op = true
   upper : ∀ b, n.upper = some b → isUpper b.op = true
   sub : ∀ b ∈ n.bounds, Kind.sub n.kind b.kind
   small : ∀ b ∈ n.bounds, b.small = true
-  scalar : ∀ s, n.scalar = some s → Kind.sub n.kind s.kind
+  scalar : ∀ s, n.scalar = some s → ∀ i, Nat.testBit n.kind i = true → i = s.kindBit
   nonbot : n.err = false → n.kind ≠ 0
 
 theorem WF.admits {n : SNode} (h : WF n) {v : Atom} (hk : Kind.has n.kind v = true) {b : Bound}
@@ -34,9 +50,11 @@ theorem wf_top : WF SNode.top := by
   refine ⟨?_, ?_, ?_, ?_, ?_, ?_⟩ <;> intros <;> simp_all [SNode.top, SNode.bounds, Kind.top]
 
 theorem den_top (re : Bytes → Bytes → Bool) (v : Atom) : den re SNode.top v := by
-  refine ⟨rfl, top_has v, ?_, ?_⟩
+  refine ⟨rfl, top_has v, ?_, ?_, ?_, ?_⟩
   · intro s h; cases h
-  · intro b hb; simp [SNode.top, SNode.bounds] at hb
+  · intro b h; cases h
+  · intro b h; cases h
+  · intro b hb; simp [SNode.top] at hb
 
 /-! ### updateKind -/
 
@@ -57,15 +75,17 @@ theorem updateKind_spec (n : SNode) (k : Kind) (hk : k ≠ 0) :
 theorem wf_shrink (n : SNode) (k : Kind) (h : WF n) (hne : n.kind &&& k ≠ 0) : WF (shrink n k) := by
   refine ⟨h.lower, h.upper, ?_, h.small, ?_, fun _ => hne⟩
   · intro b hb; exact Kind.sub_trans (Kind.sub_and_left _ _) (h.sub b hb)
-  · intro s hs; exact Kind.sub_trans (Kind.sub_and_left _ _) (h.scalar s hs)
+  · intro s hs i hi
+    simp only [shrink, Nat.testBit_and, Bool.and_eq_true] at hi
+    exact h.scalar s hs i hi.1
 
 theorem den_shrink (re : Bytes → Bytes → Bool) (n : SNode) (k : Kind) (v : Atom) :
     den re (shrink n k) v ↔ den re n v ∧ Kind.has k v = true := by
   unfold den shrink
-  simp only [Kind.has_and, Bool.and_eq_true, SNode.bounds]
+  simp only [Kind.has_and, Bool.and_eq_true]
   constructor
-  · rintro ⟨h1, ⟨h2, h3⟩, h4, h5⟩; exact ⟨⟨h1, h2, h4, h5⟩, h3⟩
-  · rintro ⟨⟨h1, h2, h4, h5⟩, h3⟩; exact ⟨h1, ⟨h2, h3⟩, h4, h5⟩
+  · rintro ⟨h1, ⟨h2, h3⟩, h4⟩; exact ⟨⟨h1, h2, h4⟩, h3⟩
+  · rintro ⟨⟨h1, h2, h4⟩, h3⟩; exact ⟨h1, ⟨h2, h3⟩, h4⟩
 
 /-- The common shape of the three insertion functions: `updateNodeType`, stop on failure,
 otherwise continue with `g`.  `P` is "the atom satisfies the new conjunct". -/
@@ -86,7 +106,7 @@ theorem insert_shape (re : Bytes → Bytes → Bool) (n : SNode) (k : Kind) (g :
   · simp only [Bool.not_false, if_true]
     refine ⟨⟨hwf.lower, hwf.upper, ?_, hwf.small, ?_, ?_⟩, fun v => ?_⟩
     · intro b _ w hw; rw [Kind.has_zero] at hw; cases hw
-    · intro s _ w hw; rw [Kind.has_zero] at hw; cases hw
+    · intro s _ i hi; simp only [Nat.zero_testBit] at hi; cases hi
     · intro h; cases h
     · constructor
       · intro h; cases h.1
@@ -127,7 +147,7 @@ theorem recheck_spec (re : Bytes → Bytes → Bool) (n : SNode) (hwf : WF n) :
           have hs := simplify_sound re n.kind l u v (hwf.admits h.2.1 hl') (hwf.admits h.2.1 hu') h.2.1
             (hwf.small l hl') (hwf.small u hu')
           rw [herr] at hs
-          exact hs ⟨h.2.2.2 l hl', h.2.2.2 u hu'⟩
+          exact hs ⟨den_bounds h hl', den_bounds h hu'⟩
     · exact ⟨hwf, fun v => Iff.rfl⟩
   · exact ⟨hwf, fun v => Iff.rfl⟩
 
@@ -162,58 +182,23 @@ theorem slotLower_spec (re : Bytes → Bytes → Bool) (n : SNode) (x : Bound) (
     ∀ v, (den re (slotLower re n x) v ↔ den re n v ∧ boundHolds re x v = true) := by
   have hadx : ∀ v, Kind.has n.kind v = true → boundAdmits x v = true := by
     intro v hv; rw [← kind_has_admits]; exact hsub v hv
-  -- the node with the slot replaced
-  have repl : WF { n with lower := some x } ∧
-      ∀ v, (den re { n with lower := some x } v ↔
-        n.err = false ∧ Kind.has n.kind v = true ∧ (∀ s, n.scalar = some s → v.same s = true) ∧
-        boundHolds re x v = true ∧ (∀ b, n.upper = some b → boundHolds re b v = true) ∧
-        (∀ b ∈ n.checks, boundHolds re b v = true)) := by
-    refine ⟨⟨?_, hwf.upper, ?_, ?_, hwf.scalar, hwf.nonbot⟩, fun v => ?_⟩
+  have replWF : WF { n with lower := some x } := by
+    refine ⟨?_, hwf.upper, ?_, ?_, hwf.scalar, hwf.nonbot⟩
     · intro b hb; cases hb; exact hx
     · intro b hb
       rcases (mem_bounds _ b).1 hb with h | h | h
       · cases h; exact hsub
-      · exact hwf.sub b ((mem_bounds n b).2 (Or.inr (Or.inl h)))
-      · exact hwf.sub b ((mem_bounds n b).2 (Or.inr (Or.inr h)))
+      · exact hwf.sub b (mem_upper h)
+      · exact hwf.sub b (mem_checks h)
     · intro b hb
       rcases (mem_bounds _ b).1 hb with h | h | h
       · cases h; exact hs
-      · exact hwf.small b ((mem_bounds n b).2 (Or.inr (Or.inl h)))
-      · exact hwf.small b ((mem_bounds n b).2 (Or.inr (Or.inr h)))
-    · unfold den
-      constructor
-      · rintro ⟨h1, h2, h3, h4⟩
-        refine ⟨h1, h2, h3, h4 x ((mem_bounds _ x).2 (Or.inl rfl)), ?_, ?_⟩
-        · intro b hb; exact h4 b ((mem_bounds _ b).2 (Or.inr (Or.inl hb)))
-        · intro b hb; exact h4 b ((mem_bounds _ b).2 (Or.inr (Or.inr hb)))
-      · rintro ⟨h1, h2, h3, h4, h5, h6⟩
-        refine ⟨h1, h2, h3, ?_⟩
-        intro b hb
-        rcases (mem_bounds _ b).1 hb with h | h | h
-        · cases h; exact h4
-        · exact h5 b h
-        · exact h6 b h
-  have denN : ∀ v, den re n v ↔ n.err = false ∧ Kind.has n.kind v = true ∧
-      (∀ s, n.scalar = some s → v.same s = true) ∧
-      (∀ b, n.lower = some b → boundHolds re b v = true) ∧
-      (∀ b, n.upper = some b → boundHolds re b v = true) ∧
-      (∀ b ∈ n.checks, boundHolds re b v = true) := by
-    intro v; unfold den
-    constructor
-    · rintro ⟨h1, h2, h3, h4⟩
-      exact ⟨h1, h2, h3, fun b hb => h4 b ((mem_bounds n b).2 (Or.inl hb)),
-        fun b hb => h4 b ((mem_bounds n b).2 (Or.inr (Or.inl hb))),
-        fun b hb => h4 b ((mem_bounds n b).2 (Or.inr (Or.inr hb)))⟩
-    · rintro ⟨h1, h2, h3, h4, h5, h6⟩
-      refine ⟨h1, h2, h3, fun b hb => ?_⟩
-      rcases (mem_bounds n b).1 hb with h | h | h
-      · exact h4 b h
-      · exact h5 b h
-      · exact h6 b h
+      · exact hwf.small b (mem_upper h)
+      · exact hwf.small b (mem_checks h)
   unfold slotLower
   split
   · rename_i y hy
-    have hyb : y ∈ n.bounds := (mem_bounds n y).2 (Or.inl hy)
+    have hyb : y ∈ n.bounds := mem_lower hy
     have hsound := fun v (hv : Kind.has n.kind v = true) =>
       simplify_sound re n.kind x y v (hadx v hv) (hwf.admits hv hyb) hv hs (hwf.small y hyb)
     split
@@ -222,30 +207,737 @@ theorem slotLower_spec (re : Bytes → Bytes → Bool) (n : SNode) (x : Bound) (
       refine ⟨hwf, fun v => ⟨fun h => ⟨h, ?_⟩, fun h => h.1⟩⟩
       have := hsound v h.2.1
       rw [hk'] at this
-      exact this (h.2.2.2 y hyb)
+      exact this (den_bounds h hyb)
     · rename_i hk
       have hk' : simplifyBounds re n.kind x y = .keepX := by
         rcases same_XY_of_lower re n.kind x y hx (hwf.lower y hy) with h | h
         · exact h
         · rw [h] at hk; simp at hk
-      refine ⟨repl.1, fun v => ?_⟩
-      rw [repl.2 v, denN v]
+      refine ⟨replWF, fun v => ?_⟩
+      unfold den
       constructor
       · rintro ⟨h1, h2, h3, h4, h5, h6⟩
-        refine ⟨⟨h1, h2, h3, ?_, h5, h6⟩, h4⟩
+        have hx' := h4 x rfl
+        refine ⟨⟨h1, h2, h3, ?_, h5, h6⟩, hx'⟩
         intro b hb; rw [hy] at hb; cases hb
         have := hsound v h2
         rw [hk'] at this
-        exact this h4
+        exact this hx'
       · rintro ⟨⟨h1, h2, h3, _, h5, h6⟩, h4⟩
-        exact ⟨h1, h2, h3, h4, h5, h6⟩
+        exact ⟨h1, h2, h3, (fun b hb => by cases hb; exact h4), h5, h6⟩
   · rename_i hnone
-    refine ⟨repl.1, fun v => ?_⟩
-    rw [repl.2 v, denN v]
+    refine ⟨replWF, fun v => ?_⟩
+    unfold den
     constructor
     · rintro ⟨h1, h2, h3, h4, h5, h6⟩
-      exact ⟨⟨h1, h2, h3, (fun b hb => by rw [hnone] at hb; cases hb), h5, h6⟩, h4⟩
+      exact ⟨⟨h1, h2, h3, (fun b hb => by rw [hnone] at hb; cases hb), h5, h6⟩, h4 x rfl⟩
     · rintro ⟨⟨h1, h2, h3, _, h5, h6⟩, h4⟩
-      exact ⟨h1, h2, h3, h4, h5, h6⟩
+      exact ⟨h1, h2, h3, (fun b hb => by cases hb; exact h4), h5, h6⟩
+
+theorem slotUpper_spec (re : Bytes → Bytes → Bool) (n : SNode) (x : Bound) (hwf : WF n)
+    (hx : isUpper x.op = true) (hsub : Kind.sub n.kind x.kind) (hs : x.small = true) :
+    WF (slotUpper re n x) ∧
+    ∀ v, (den re (slotUpper re n x) v ↔ den re n v ∧ boundHolds re x v = true) := by
+  have hadx : ∀ v, Kind.has n.kind v = true → boundAdmits x v = true := by
+    intro v hv; rw [← kind_has_admits]; exact hsub v hv
+  have replWF : WF { n with upper := some x } := by
+    refine ⟨hwf.lower, ?_, ?_, ?_, hwf.scalar, hwf.nonbot⟩
+    · intro b hb; cases hb; exact hx
+    · intro b hb
+      rcases (mem_bounds _ b).1 hb with h | h | h
+      · exact hwf.sub b (mem_lower h)
+      · cases h; exact hsub
+      · exact hwf.sub b (mem_checks h)
+    · intro b hb
+      rcases (mem_bounds _ b).1 hb with h | h | h
+      · exact hwf.small b (mem_lower h)
+      · cases h; exact hs
+      · exact hwf.small b (mem_checks h)
+  unfold slotUpper
+  split
+  · rename_i y hy
+    have hyb : y ∈ n.bounds := mem_upper hy
+    have hsound := fun v (hv : Kind.has n.kind v = true) =>
+      simplify_sound re n.kind x y v (hadx v hv) (hwf.admits hv hyb) hv hs (hwf.small y hyb)
+    split
+    · rename_i hk
+      have hk' : simplifyBounds re n.kind x y = .keepY := by simpa using hk
+      refine ⟨hwf, fun v => ⟨fun h => ⟨h, ?_⟩, fun h => h.1⟩⟩
+      have := hsound v h.2.1
+      rw [hk'] at this
+      exact this (den_bounds h hyb)
+    · rename_i hk
+      have hk' : simplifyBounds re n.kind x y = .keepX := by
+        rcases same_XY_of_upper re n.kind x y hx (hwf.upper y hy) with h | h
+        · exact h
+        · rw [h] at hk; simp at hk
+      refine ⟨replWF, fun v => ?_⟩
+      unfold den
+      constructor
+      · rintro ⟨h1, h2, h3, h4, h5, h6⟩
+        have hx' := h5 x rfl
+        refine ⟨⟨h1, h2, h3, h4, ?_, h6⟩, hx'⟩
+        intro b hb; rw [hy] at hb; cases hb
+        have := hsound v h2
+        rw [hk'] at this
+        exact this hx'
+      · rintro ⟨⟨h1, h2, h3, h4, _, h6⟩, h5⟩
+        exact ⟨h1, h2, h3, h4, (fun b hb => by cases hb; exact h5), h6⟩
+  · rename_i hnone
+    refine ⟨replWF, fun v => ?_⟩
+    unfold den
+    constructor
+    · rintro ⟨h1, h2, h3, h4, h5, h6⟩
+      exact ⟨⟨h1, h2, h3, h4, (fun b hb => by rw [hnone] at hb; cases hb), h6⟩, h5 x rfl⟩
+    · rintro ⟨⟨h1, h2, h3, h4, _, h6⟩, h5⟩
+      exact ⟨h1, h2, h3, h4, (fun b hb => by cases hb; exact h5), h6⟩
+
+/-! ### `!=`, `=~`, `!~`: the checks list -/
+
+theorem insertCheck_subset (re : Bytes → Bytes → Bool) (k : Kind) (x : Bound) (ys : List Bound) :
+    ∀ b ∈ (insertCheck re k x ys).1, b ∈ ys := by
+  induction ys with
+  | nil => intro b hb; simp [insertCheck] at hb
+  | cons y ys ih =>
+    intro b hb
+    unfold insertCheck at hb
+    cases hs : simplifyBounds re k x y <;> rw [hs] at hb <;> simp only at hb
+    · exact List.mem_cons_of_mem _ (ih b hb)
+    all_goals
+      rcases List.mem_cons.1 hb with h | h
+      · rw [h]; exact List.mem_cons_self
+      · exact List.mem_cons_of_mem _ (ih b h)
+
+theorem insertCheck_spec (re : Bytes → Bytes → Bool) (k : Kind) (x : Bound) (v : Atom)
+    (hk : Kind.has k v = true) (hax : boundAdmits x v = true) (sx : x.small = true)
+    (ys : List Bound) (hys : ∀ y ∈ ys, boundAdmits y v = true ∧ y.small = true) :
+    ((∀ b ∈ (insertCheck re k x ys).1, boundHolds re b v = true) → boundHolds re x v = true →
+      ∀ b ∈ ys, boundHolds re b v = true) ∧
+    ((insertCheck re k x ys).2 = true → (∀ b ∈ (insertCheck re k x ys).1, boundHolds re b v = true) →
+      boundHolds re x v = true) := by
+  induction ys with
+  | nil => simp [insertCheck]
+  | cons y ys ih =>
+    have ih' := ih (fun b hb => hys b (List.mem_cons_of_mem _ hb))
+    have hy := hys y List.mem_cons_self
+    have hsound := simplify_sound re k x y v hax hy.1 hk sx hy.2
+    unfold insertCheck
+    cases hs : simplifyBounds re k x y <;> rw [hs] at hsound <;> simp only at hsound ⊢
+    · -- keepX: y is deleted
+      refine ⟨?_, ih'.2⟩
+      intro hr hx b hb
+      rcases List.mem_cons.1 hb with h | h
+      · rw [h]; exact hsound hx
+      · exact ih'.1 hr hx b h
+    · -- keepY: x is redundant
+      refine ⟨?_, ?_⟩
+      · intro hr hx b hb
+        rcases List.mem_cons.1 hb with h | h
+        · rw [h]; exact hr y List.mem_cons_self
+        · exact ih'.1 (fun b hb => hr b (List.mem_cons_of_mem _ hb)) hx b h
+      · intro _ hr; exact hsound (hr y List.mem_cons_self)
+    · refine ⟨?_, ?_⟩
+      · intro hr hx b hb
+        rcases List.mem_cons.1 hb with h | h
+        · rw [h]; exact hr y List.mem_cons_self
+        · exact ih'.1 (fun b hb => hr b (List.mem_cons_of_mem _ hb)) hx b h
+      · intro hm hr; exact ih'.2 hm (fun b hb => hr b (List.mem_cons_of_mem _ hb))
+    · refine ⟨?_, ?_⟩
+      · intro hr hx b hb
+        rcases List.mem_cons.1 hb with h | h
+        · rw [h]; exact hr y List.mem_cons_self
+        · exact ih'.1 (fun b hb => hr b (List.mem_cons_of_mem _ hb)) hx b h
+      · intro hm hr; exact ih'.2 hm (fun b hb => hr b (List.mem_cons_of_mem _ hb))
+
+theorem addCheck_spec (re : Bytes → Bytes → Bool) (n : SNode) (x : Bound) (hwf : WF n)
+    (hsub : Kind.sub n.kind x.kind) (hs : x.small = true) :
+    WF (addCheck re n x) ∧
+    ∀ v, (den re (addCheck re n x) v ↔ den re n v ∧ boundHolds re x v = true) := by
+  have hsubset := insertCheck_subset re n.kind x n.checks
+  have hmem : ∀ b ∈ (addCheck re n x).checks, b ∈ n.checks ∨ b = x := by
+    intro b hb
+    unfold addCheck at hb
+    simp only at hb
+    split at hb
+    · exact Or.inl (hsubset b hb)
+    · rcases List.mem_append.1 hb with h | h
+      · exact Or.inl (hsubset b h)
+      · exact Or.inr (by simpa using h)
+  refine ⟨⟨hwf.lower, hwf.upper, ?_, ?_, hwf.scalar, hwf.nonbot⟩, fun v => ?_⟩
+  · intro b hb
+    rcases (mem_bounds _ b).1 hb with h | h | h
+    · exact hwf.sub b (mem_lower h)
+    · exact hwf.sub b (mem_upper h)
+    · rcases hmem b h with h' | h'
+      · exact hwf.sub b (mem_checks h')
+      · rw [h']; exact hsub
+  · intro b hb
+    rcases (mem_bounds _ b).1 hb with h | h | h
+    · exact hwf.small b (mem_lower h)
+    · exact hwf.small b (mem_upper h)
+    · rcases hmem b h with h' | h'
+      · exact hwf.small b (mem_checks h')
+      · rw [h']; exact hs
+  · -- denotation
+    have key : Kind.has n.kind v = true →
+        ((∀ b ∈ (addCheck re n x).checks, boundHolds re b v = true) ↔
+          (∀ b ∈ n.checks, boundHolds re b v = true) ∧ boundHolds re x v = true) := by
+      intro hk
+      have hax : boundAdmits x v = true := by rw [← kind_has_admits]; exact hsub v hk
+      have hys : ∀ y ∈ n.checks, boundAdmits y v = true ∧ y.small = true :=
+        fun y hy => ⟨hwf.admits hk (mem_checks hy), hwf.small y (mem_checks hy)⟩
+      have sp := insertCheck_spec re n.kind x v hk hax hs n.checks hys
+      unfold addCheck
+      simp only
+      split
+      · rename_i hm
+        constructor
+        · intro hr
+          have hx := sp.2 hm hr
+          exact ⟨sp.1 hr hx, hx⟩
+        · rintro ⟨hall, _⟩ b hb; exact hall b (hsubset b hb)
+      · constructor
+        · intro hr
+          have hx : boundHolds re x v = true := hr x (List.mem_append.2 (Or.inr (by simp)))
+          exact ⟨sp.1 (fun b hb => hr b (List.mem_append.2 (Or.inl hb))) hx, hx⟩
+        · rintro ⟨hall, hx⟩ b hb
+          rcases List.mem_append.1 hb with h | h
+          · exact hall b (hsubset b h)
+          · have : b = x := by simpa using h
+            rw [this]; exact hx
+    unfold den
+    constructor
+    · rintro ⟨h1, h2, h3, h4, h5, h6⟩
+      have := (key h2).1 h6
+      exact ⟨⟨h1, h2, h3, h4, h5, this.1⟩, this.2⟩
+    · rintro ⟨⟨h1, h2, h3, h4, h5, h6⟩, hx⟩
+      exact ⟨h1, h2, h3, h4, h5, (key h2).2 ⟨h6, hx⟩⟩
+
+/-! ### one conjunct -/
+
+theorem placeBound_spec (re : Bytes → Bytes → Bool) (n : SNode) (x : Bound) (hwf : WF n)
+    (hsub : Kind.sub n.kind x.kind) (hs : x.small = true) :
+    WF (placeBound re n x) ∧
+    ∀ v, (den re (placeBound re n x) v ↔ den re n v ∧ boundHolds re x v = true) := by
+  have lower : isLower x.op = true → WF (recheck re (slotLower re n x)) ∧
+      ∀ v, (den re (recheck re (slotLower re n x)) v ↔ den re n v ∧ boundHolds re x v = true) := by
+    intro hx
+    obtain ⟨w, d⟩ := slotLower_spec re n x hwf hx hsub hs
+    obtain ⟨w', d'⟩ := recheck_spec re _ w
+    exact ⟨w', fun v => (d' v).trans (d v)⟩
+  have upper : isUpper x.op = true → WF (recheck re (slotUpper re n x)) ∧
+      ∀ v, (den re (recheck re (slotUpper re n x)) v ↔ den re n v ∧ boundHolds re x v = true) := by
+    intro hx
+    obtain ⟨w, d⟩ := slotUpper_spec re n x hwf hx hsub hs
+    obtain ⟨w', d'⟩ := recheck_spec re _ w
+    exact ⟨w', fun v => (d' v).trans (d v)⟩
+  unfold placeBound
+  split
+  · rename_i h; exact lower (by rw [h]; rfl)
+  · rename_i h; exact lower (by rw [h]; rfl)
+  · rename_i h; exact upper (by rw [h]; rfl)
+  · rename_i h; exact upper (by rw [h]; rfl)
+  · exact addCheck_spec re n x hwf hsub hs
+
+theorem not_wellTyped_unsat (re : Bytes → Bytes → Bool) (x : Bound) (v : Atom)
+    (h : x.wellTyped = false) : satBound re v x = false := by
+  obtain ⟨op, a⟩ := x
+  cases a <;> simp [Bound.wellTyped] at h <;> cases op <;> simp at h <;> cases v <;>
+    simp [satBound, boundAdmits, boundHolds, ordCmp, Atom.num?, Atom.isNull, Atom.sameKind, Atom.kindBit]
+
+theorem insertBound_spec (re : Bytes → Bytes → Bool) (n : SNode) (x : Bound) (hwf : WF n)
+    (hs : x.small = true) :
+    WF (insertBound re n x) ∧
+    ∀ v, (den re (insertBound re n x) v ↔ den re n v ∧ satBound re v x = true) := by
+  unfold insertBound
+  by_cases hw : x.wellTyped = true
+  · simp only [hw, Bool.not_true, Bool.false_eq_true, if_false]
+    refine insert_shape re n x.kind (fun m => placeBound re m x) (fun v => satBound re v x = true)
+      (bound_kind_ne_zero x) hwf ?_ ?_
+    · intro v hv
+      rw [kind_has_admits]
+      simp only [satBound, Bool.and_eq_true] at hv; exact hv.1
+    · intro n1 w1 hk1
+      have hsub : Kind.sub n1.kind x.kind := by rw [hk1]; exact Kind.sub_and_right _ _
+      obtain ⟨w, d⟩ := placeBound_spec re n1 x w1 hsub hs
+      refine ⟨w, fun v => ?_⟩
+      rw [d v]
+      constructor
+      · rintro ⟨h1, h2⟩
+        refine ⟨h1, ?_⟩
+        simp only [satBound, Bool.and_eq_true]
+        refine ⟨?_, h2⟩
+        rw [← kind_has_admits]; exact hsub v h1.2.1
+      · rintro ⟨h1, h2⟩
+        simp only [satBound, Bool.and_eq_true] at h2; exact ⟨h1, h2.2⟩
+  · have hw' : x.wellTyped = false := by simpa using hw
+    simp only [hw', Bool.not_false, if_true]
+    refine ⟨⟨hwf.lower, hwf.upper, hwf.sub, hwf.small, hwf.scalar, ?_⟩, fun v => ?_⟩
+    · intro h; cases h
+    · constructor
+      · intro h; cases h.1
+      · rintro ⟨_, h⟩; rw [not_wellTyped_unsat re x v hw'] at h; cases h
+
+theorem placeAtom_spec (re : Bytes → Bytes → Bool) (n : SNode) (a : Atom) (hwf : WF n)
+    (hbits : ∀ i, Nat.testBit n.kind i = true → i = a.kindBit) :
+    WF (placeAtom re n a) ∧ ∀ v, (den re (placeAtom re n a) v ↔ den re n v ∧ v.same a = true) := by
+  have hkind : ∀ v, Kind.has n.kind v = true → v.sameKind a = true := by
+    intro v hv
+    have := hbits _ hv
+    simp only [Atom.sameKind, this, beq_self_eq_true]
+  unfold placeAtom
+  simp only
+  split
+  · rename_i y hy
+    split
+    · rename_i he
+      obtain ⟨w', d'⟩ := recheck_spec re n hwf
+      refine ⟨w', fun v => (d' v).trans ⟨fun h => ⟨h, ?_⟩, fun h => h.1⟩⟩
+      have hvy := h.2.2.1 y hy
+      simp only [Atom.same, Bool.and_eq_true] at hvy ⊢
+      refine ⟨hkind v h.2.1, ?_⟩
+      have he' : a.eqv y = true := he
+      rw [eqv_symm] at he'
+      exact eqv_trans v y a hvy.2 he'
+    · rename_i he
+      have w1 : WF { n with err := true } :=
+        ⟨hwf.lower, hwf.upper, hwf.sub, hwf.small, hwf.scalar, fun h => by cases h⟩
+      obtain ⟨w', d'⟩ := recheck_spec re _ w1
+      refine ⟨w', fun v => (d' v).trans ⟨(fun h => by cases h.1), ?_⟩⟩
+      rintro ⟨h, hva⟩
+      exfalso
+      have hvy := h.2.2.1 y hy
+      simp only [Atom.same, Bool.and_eq_true] at hvy hva
+      apply he
+      have : a.eqv v = true := by rw [eqv_symm]; exact hva.2
+      exact eqv_trans a v y this hvy.2
+  · rename_i hnone
+    have w1 : WF { n with scalar := some a } := by
+      refine ⟨hwf.lower, hwf.upper, hwf.sub, hwf.small, ?_, hwf.nonbot⟩
+      intro s hs; cases hs; exact hbits
+    obtain ⟨w', d'⟩ := recheck_spec re _ w1
+    refine ⟨w', fun v => (d' v).trans ?_⟩
+    unfold den
+    constructor
+    · rintro ⟨h1, h2, h3, h4⟩
+      exact ⟨⟨h1, h2, (fun s hs => by rw [hnone] at hs; cases hs), h4⟩, h3 a rfl⟩
+    · rintro ⟨⟨h1, h2, _, h4⟩, h3⟩
+      exact ⟨h1, h2, (fun s hs => by cases hs; exact h3), h4⟩
+
+theorem insertAtom_spec (re : Bytes → Bytes → Bool) (n : SNode) (a : Atom) (hwf : WF n) :
+    WF (insertAtom re n a) ∧
+    ∀ v, (den re (insertAtom re n a) v ↔ den re n v ∧ v.same a = true) := by
+  unfold insertAtom
+  refine insert_shape re n a.kind (fun m => placeAtom re m a) (fun v => v.same a = true)
+    (atom_kind_ne_zero a) hwf ?_ ?_
+  · intro v hv
+    rw [atom_kind_has]
+    simp only [Atom.same, Bool.and_eq_true] at hv; exact hv.1
+  · intro n1 w1 hk1
+    refine placeAtom_spec re n1 a w1 ?_
+    intro i hi
+    rw [hk1, Nat.testBit_and, Bool.and_eq_true] at hi
+    have := hi.2
+    simp only [Atom.kind, Nat.testBit_two_pow, decide_eq_true_eq] at this
+    exact this.symm
+
+theorem insertType_spec (re : Bytes → Bytes → Bool) (n : SNode) (k : Kind) (hwf : WF n) (hk : k ≠ 0) :
+    WF (insertType re n k) ∧
+    ∀ v, (den re (insertType re n k) v ↔ den re n v ∧ Kind.has k v = true) := by
+  unfold insertType
+  refine insert_shape re n k (fun m => recheck re m) (fun v => Kind.has k v = true) hk hwf
+    (fun _ h => h) ?_
+  intro n1 w1 hk1
+  obtain ⟨w', d'⟩ := recheck_spec re n1 w1
+  refine ⟨w', fun v => (d' v).trans ⟨fun h => ⟨h, ?_⟩, fun h => h.1⟩⟩
+  have := h.2.1
+  rw [hk1, Kind.has_and] at this
+  simp only [Bool.and_eq_true] at this; exact this.2
+
+def Constraint.isBasic : Constraint → Bool
+  | .range _ => false
+  | _ => true
+
+theorem insertBasic_spec (re : Bytes → Bytes → Bool) (n : SNode) (c : Constraint) (hwf : WF n)
+    (hb : c.isBasic = true) (hr : c.regular = true) :
+    WF (insertBasic re n c) ∧ ∀ v, (den re (insertBasic re n c) v ↔ den re n v ∧ sat re v c = true) := by
+  cases c with
+  | atom a => exact insertAtom_spec re n a hwf
+  | type k =>
+    exact insertType_spec re n k hwf (by simpa [Constraint.regular] using hr)
+  | bound b => exact insertBound_spec re n b hwf hr
+  | range r => cases hb
+
+theorem foldl_spec (re : Bytes → Bytes → Bool) (f : SNode → Constraint → SNode)
+    (ok : Constraint → Prop)
+    (hf : ∀ n c, WF n → ok c → WF (f n c) ∧ ∀ v, (den re (f n c) v ↔ den re n v ∧ sat re v c = true)) :
+    ∀ (cs : List Constraint) (n : SNode), WF n → (∀ c ∈ cs, ok c) →
+      WF (cs.foldl f n) ∧ ∀ v, (den re (cs.foldl f n) v ↔ den re n v ∧ ∀ c ∈ cs, sat re v c = true) := by
+  intro cs
+  induction cs with
+  | nil => intro n hwf _; exact ⟨hwf, fun v => by simp⟩
+  | cons c cs ih =>
+    intro n hwf hok
+    obtain ⟨w, d⟩ := hf n c hwf (hok c List.mem_cons_self)
+    obtain ⟨w', d'⟩ := ih (f n c) w (fun c' hc' => hok c' (List.mem_cons_of_mem _ hc'))
+    refine ⟨w', fun v => ?_⟩
+    rw [List.foldl_cons, d' v, d v]
+    constructor
+    · rintro ⟨⟨h1, h2⟩, h3⟩
+      refine ⟨h1, fun c' hc' => ?_⟩
+      rcases List.mem_cons.1 hc' with h | h
+      · rw [h]; exact h2
+      · exact h3 c' h
+    · rintro ⟨h1, h2⟩
+      exact ⟨⟨h1, h2 c List.mem_cons_self⟩, fun c' hc' => h2 c' (List.mem_cons_of_mem _ hc')⟩
+
+/-! ### predeclared ranges -/
+
+theorem expand_ok (r : Range) : ∀ c ∈ r.expand, c.isBasic = true ∧ c.regular = true := by
+  cases r <;> decide
+
+theorem isNum_eq (v : Atom) : v.isNum = v.num?.isSome := by cases v <;> rfl
+
+theorem sat_ge_num (re : Bytes → Bytes → Bool) (v : Atom) (m : Atom) (d x : Dec)
+    (hv : v.num? = some d) (hm : m.num? = some x) :
+    sat re v (.bound ⟨.ge, m⟩) = (Dec.cmp x d).isLE := by
+  have hadm : boundAdmits ⟨.ge, m⟩ v = true := by
+    cases m <;> simp [Atom.num?] at hm <;> simp [boundAdmits, isNum_eq, hv]
+  simp only [sat, satBound, hadm, Bool.true_and, boundHolds, ordCmp_num v m d x hv hm, opHolds_ge]
+  exact OrientedCmp.isGE_eq_isLE
+
+theorem sat_le_num (re : Bytes → Bytes → Bool) (v : Atom) (m : Atom) (d x : Dec)
+    (hv : v.num? = some d) (hm : m.num? = some x) :
+    sat re v (.bound ⟨.le, m⟩) = (Dec.cmp d x).isLE := by
+  have hadm : boundAdmits ⟨.le, m⟩ v = true := by
+    cases m <;> simp [Atom.num?] at hm <;> simp [boundAdmits, isNum_eq, hv]
+  simp only [sat, satBound, hadm, Bool.true_and, boundHolds, ordCmp_num v m d x hv hm, opHolds_le]
+
+theorem sat_bound_nonnum (re : Bytes → Bytes → Bool) (v : Atom) (op : Op) (m : Atom) (x : Dec)
+    (hv : v.num? = none) (hm : m.num? = some x) : sat re v (.bound ⟨op, m⟩) = false := by
+  have hadm : boundAdmits ⟨op, m⟩ v = false := by
+    cases m <;> simp [Atom.num?] at hm <;> simp [boundAdmits, isNum_eq, hv]
+  simp only [sat, satBound, hadm, Bool.false_and]
+
+theorem sat_range (re : Bytes → Bytes → Bool) (r : Range) (v : Atom) :
+    sat re v (.range r) = true ↔ ∀ c ∈ r.expand, sat re v c = true := by
+  show satRange v r = true ↔ _
+  unfold satRange Range.expand
+  cases hspec : r.intSpec with
+  | none =>
+    simp only [List.forall_mem_cons, List.not_mem_nil, false_imp_iff, implies_true, and_true]
+    cases hv : v.num? with
+    | none =>
+      rw [sat_bound_nonnum re v .ge (.float r.floatMax.neg) r.floatMax.neg hv rfl]
+      simp
+    | some d =>
+      rw [sat_ge_num re v (.float r.floatMax.neg) d r.floatMax.neg hv rfl,
+        sat_le_num re v (.float r.floatMax) d r.floatMax hv rfl]
+      simp only [Bool.and_eq_true]
+  | some p =>
+    obtain ⟨lo, hi⟩ := p
+    simp only [List.cons_append, List.nil_append, List.forall_mem_cons]
+    cases v with
+    | int z =>
+      have h1 : sat re (.int z) (.type Kind.int) = true := (by decide : Nat.testBit 4 2 = true)
+      have h2 : sat re (.int z) (.bound ⟨.ge, .int lo⟩) = decide (lo ≤ z) := by
+        rw [sat_ge_num re (.int z) (.int lo) (Dec.ofInt z) (Dec.ofInt lo) rfl rfl, Dec.cmp_ofInt_ofInt, Bool.eq_iff_iff]
+        simp only [decide_eq_true_eq]; exact Int.isLE_compare
+      rw [h1, h2]
+      cases hi with
+      | none => simp
+      | some h =>
+        have h3 : sat re (.int z) (.bound ⟨.le, .int h⟩) = decide (z ≤ h) := by
+          rw [sat_le_num re (.int z) (.int h) (Dec.ofInt z) (Dec.ofInt h) rfl rfl, Dec.cmp_ofInt_ofInt, Bool.eq_iff_iff]
+          simp only [decide_eq_true_eq]; exact Int.isLE_compare
+        simp [h3]
+    | null =>
+      have h1 : sat re Atom.null (.type Kind.int) = false := (by decide : Nat.testBit 4 0 = false)
+      simp [h1]
+    | bool b =>
+      have h1 : sat re (Atom.bool b) (.type Kind.int) = false := (by decide : Nat.testBit 4 1 = false)
+      simp [h1]
+    | float d =>
+      have h1 : sat re (Atom.float d) (.type Kind.int) = false := (by decide : Nat.testBit 4 3 = false)
+      simp [h1]
+    | str s =>
+      have h1 : sat re (Atom.str s) (.type Kind.int) = false := (by decide : Nat.testBit 4 4 = false)
+      simp [h1]
+    | bytes s =>
+      have h1 : sat re (Atom.bytes s) (.type Kind.int) = false := (by decide : Nat.testBit 4 5 = false)
+      simp [h1]
+
+theorem insert_spec (re : Bytes → Bytes → Bool) (n : SNode) (c : Constraint) (hwf : WF n)
+    (hr : c.regular = true) :
+    WF (insert re n c) ∧ ∀ v, (den re (insert re n c) v ↔ den re n v ∧ sat re v c = true) := by
+  cases c with
+  | range r =>
+    have := foldl_spec re (insertBasic re) (fun c => c.isBasic = true ∧ c.regular = true)
+      (fun n c w h => insertBasic_spec re n c w h.1 h.2) r.expand n hwf (expand_ok r)
+    refine ⟨this.1, fun v => ?_⟩
+    show den re (r.expand.foldl (insertBasic re) n) v ↔ _
+    rw [this.2 v, sat_range]
+  | atom a => exact insertBasic_spec re n (.atom a) hwf rfl hr
+  | type k => exact insertBasic_spec re n (.type k) hwf rfl hr
+  | bound b => exact insertBasic_spec re n (.bound b) hwf rfl hr
+
+/-- The node after inserting all conjuncts admits exactly the atoms satisfying all of them. -/
+theorem fold_den (re : Bytes → Bytes → Bool) (cs : List Constraint) (hreg : Regular cs) :
+    WF (cs.foldl (insert re) SNode.top) ∧
+    ∀ v, (den re (cs.foldl (insert re) SNode.top) v ↔ Sat re cs v) := by
+  have := foldl_spec re (insert re) (fun c => c.regular = true)
+    (fun n c w h => insert_spec re n c w h) cs SNode.top wf_top hreg
+  refine ⟨this.1, fun v => ?_⟩
+  rw [this.2 v]
+  exact ⟨fun h => h.2, fun h => ⟨den_top re v, h⟩⟩
+
+/-! ### finalisation -/
+
+theorem same_refl (a : Atom) : a.same a = true := by
+  simp only [Atom.same, Atom.sameKind, beq_self_eq_true, eqv_refl, Bool.and_self]
+
+theorem has_congr (k : Kind) (v w : Atom) (h : v.same w = true) : Kind.has k v = Kind.has k w := by
+  simp only [Atom.same, Atom.sameKind, Bool.and_eq_true, beq_iff_eq] at h
+  simp only [Kind.has, h.1]
+
+theorem holds_congr (re : Bytes → Bytes → Bool) (b : Bound) (v w : Atom) (h : v.same w = true) :
+    boundHolds re b v = boundHolds re b w := by
+  simp only [Atom.same, Bool.and_eq_true] at h
+  rw [← binOpBool_eq_holds, ← binOpBool_eq_holds, binOpBool_congr_left re b.op v w b.val h.2]
+
+theorem same_symm (v w : Atom) (h : v.same w = true) : w.same v = true := by
+  simp only [Atom.same, Atom.sameKind, Bool.and_eq_true, beq_iff_eq] at h ⊢
+  exact ⟨h.1.symm, by rw [eqv_symm]; exact h.2⟩
+
+theorem same_trans (u v w : Atom) (h1 : u.same v = true) (h2 : v.same w = true) : u.same w = true := by
+  simp only [Atom.same, Atom.sameKind, Bool.and_eq_true, beq_iff_eq] at h1 h2 ⊢
+  exact ⟨h1.1.trans h2.1, eqv_trans u v w h1.2 h2.2⟩
+
+/-- the denotation does not distinguish equal atoms (`1.0` / `1.00`) -/
+theorem den_congr (re : Bytes → Bytes → Bool) (n : SNode) (v w : Atom) (h : v.same w = true)
+    (hd : den re n v) : den re n w := by
+  obtain ⟨h1, h2, h3, h4, h5, h6⟩ := hd
+  refine ⟨h1, by rw [← has_congr n.kind v w h]; exact h2, ?_, ?_, ?_, ?_⟩
+  · intro s hs; exact same_trans w v s (same_symm v w h) (h3 s hs)
+  · intro b hb; rw [← holds_congr re b v w h]; exact h4 b hb
+  · intro b hb; rw [← holds_congr re b v w h]; exact h5 b hb
+  · intro b hb; rw [← holds_congr re b v w h]; exact h6 b hb
+
+theorem optAll_iff (o : Option Bound) (p : Bound → Bool) :
+    optAll o p = true ↔ ∀ b, o = some b → p b = true := by
+  cases o <;> simp [optAll]
+
+theorem finalize_spec (re : Bytes → Bytes → Bool) (n : SNode) (hwf : WF n) :
+    match finalize re n with
+    | .bottom => ∀ v, ¬ den re n v
+    | .atom s => den re n s ∧ ∀ v, den re n v → v.same s = true
+    | .residual _ _ => n.scalar = none := by
+  by_cases herr : n.err = true
+  · have e : finalize re n = .bottom := by unfold finalize; rw [if_pos herr]
+    rw [e]
+    intro v h; rw [h.1] at herr; cases herr
+  · have herr' : n.err = false := by simpa using herr
+    cases hs : n.scalar with
+    | none =>
+      have e : finalize re n = .residual n.kind (residualBounds re n) := by
+        unfold finalize; rw [if_neg herr]; simp only [hs]
+      rw [e]
+    | some s =>
+      -- the validation condition is "all bounds hold for s"
+      have hval : (optAll n.lower (validate re · s) && optAll n.upper (validate re · s) &&
+          n.checks.all (validate re · s)) = true ↔
+          ((∀ b, n.lower = some b → boundHolds re b s = true) ∧
+           (∀ b, n.upper = some b → boundHolds re b s = true) ∧
+           (∀ b ∈ n.checks, boundHolds re b s = true)) := by
+        simp only [Bool.and_eq_true, optAll_iff, List.all_eq_true, validate, binOpBool_eq_holds, and_assoc]
+      by_cases hv : (optAll n.lower (validate re · s) && optAll n.upper (validate re · s) &&
+          n.checks.all (validate re · s)) = true
+      · have e : finalize re n = .atom s := by
+          unfold finalize; rw [if_neg herr]; simp only [hs]; rw [if_pos hv]
+        rw [e]
+        have hv' := hval.1 hv
+        refine ⟨⟨herr', ?_, ?_, hv'.1, hv'.2.1, hv'.2.2⟩, fun v h => h.2.2.1 s hs⟩
+        · obtain ⟨i, hi⟩ := Nat.exists_testBit_of_ne_zero (hwf.nonbot herr')
+          have := hwf.scalar s hs i hi
+          rw [this] at hi; exact hi
+        · intro s' hs'; rw [hs] at hs'; cases hs'; exact same_refl _
+      · have e : finalize re n = .bottom := by
+          unfold finalize; rw [if_neg herr]; simp only [hs]; rw [if_neg hv]
+        rw [e]
+        intro v h
+        apply hv
+        have hvs := h.2.2.1 s hs
+        have hs' := den_congr re n v s hvs h
+        exact hval.2 ⟨hs'.2.2.2.1, hs'.2.2.2.2.1, hs'.2.2.2.2.2⟩
+
+/-! ### once an atom has been inserted the node is settled: error, scalar or empty kind -/
+
+def settled (n : SNode) : Prop := n.err = true ∨ n.scalar.isSome = true ∨ n.kind = 0
+
+theorem recheck_fields (re : Bytes → Bytes → Bool) (n : SNode) :
+    (recheck re n).scalar = n.scalar ∧ (recheck re n).kind = n.kind ∧
+    (n.err = true → (recheck re n).err = true) := by
+  unfold recheck
+  repeat' split
+  all_goals simp
+
+theorem slotLower_fields (re : Bytes → Bytes → Bool) (n : SNode) (x : Bound) :
+    (slotLower re n x).scalar = n.scalar ∧ (slotLower re n x).kind = n.kind ∧
+    (slotLower re n x).err = n.err := by
+  unfold slotLower
+  repeat' split
+  all_goals simp
+
+theorem slotUpper_fields (re : Bytes → Bytes → Bool) (n : SNode) (x : Bound) :
+    (slotUpper re n x).scalar = n.scalar ∧ (slotUpper re n x).kind = n.kind ∧
+    (slotUpper re n x).err = n.err := by
+  unfold slotUpper
+  repeat' split
+  all_goals simp
+
+theorem settled_recheck (re : Bytes → Bytes → Bool) (n : SNode) (h : settled n) : settled (recheck re n) := by
+  obtain ⟨h1, h2, h3⟩ := recheck_fields re n
+  unfold settled
+  rw [h1, h2]
+  rcases h with h | h | h
+  · exact Or.inl (h3 h)
+  · exact Or.inr (Or.inl h)
+  · exact Or.inr (Or.inr h)
+
+theorem settled_placeBound (re : Bytes → Bytes → Bool) (n : SNode) (x : Bound) (h : settled n) :
+    settled (placeBound re n x) := by
+  have hl : settled (slotLower re n x) := by
+    obtain ⟨h1, h2, h3⟩ := slotLower_fields re n x
+    unfold settled; rw [h1, h2, h3]; exact h
+  have hu : settled (slotUpper re n x) := by
+    obtain ⟨h1, h2, h3⟩ := slotUpper_fields re n x
+    unfold settled; rw [h1, h2, h3]; exact h
+  unfold placeBound
+  split
+  · exact settled_recheck re _ hl
+  · exact settled_recheck re _ hl
+  · exact settled_recheck re _ hu
+  · exact settled_recheck re _ hu
+  · exact h
+
+theorem settled_updateKind (n : SNode) (k : Kind) (h : settled n) : settled (updateKind n k).1 := by
+  unfold updateKind
+  by_cases h0 : (n.kind == Kind.bottom || k == Kind.bottom) = true
+  · rw [if_pos h0]; exact h
+  · rw [if_neg h0]
+    by_cases h1 : (n.kind &&& k == Kind.bottom) = true
+    · simp only [h1, if_true]; exact Or.inl rfl
+    · simp only [h1, if_false]
+      rcases h with h | h | h
+      · exact Or.inl h
+      · exact Or.inr (Or.inl h)
+      · exfalso; apply h0; simp [h, Kind.bottom]
+
+theorem settled_placeAtom (re : Bytes → Bytes → Bool) (n : SNode) (a : Atom) : settled (placeAtom re n a) := by
+  unfold placeAtom
+  apply settled_recheck
+  split
+  · split
+    · rename_i y hy _; exact Or.inr (Or.inl (by rw [hy]; rfl))
+    · exact Or.inl rfl
+  · exact Or.inr (Or.inl rfl)
+
+theorem settled_insertAtom (re : Bytes → Bytes → Bool) (n : SNode) (a : Atom) : settled (insertAtom re n a) := by
+  unfold insertAtom
+  simp only
+  rcases updateKind_spec n a.kind (atom_kind_ne_zero a) with ⟨h0, he⟩ | ⟨_, he⟩ | ⟨_, he⟩ <;> rw [he]
+  · exact Or.inr (Or.inr h0)
+  · exact Or.inl rfl
+  · exact settled_placeAtom re _ a
+
+theorem settled_insertBasic (re : Bytes → Bytes → Bool) (n : SNode) (c : Constraint) (h : settled n) :
+    settled (insertBasic re n c) := by
+  cases c with
+  | atom a => exact settled_insertAtom re n a
+  | type k =>
+    show settled (insertType re n k)
+    unfold insertType
+    simp only
+    split
+    · exact settled_updateKind n k h
+    · exact settled_recheck re _ (settled_updateKind n k h)
+  | bound b =>
+    show settled (insertBound re n b)
+    unfold insertBound
+    simp only
+    split
+    · exact Or.inl rfl
+    · split
+      · exact settled_updateKind n _ h
+      · exact settled_placeBound re _ b (settled_updateKind n _ h)
+  | range r => exact h
+
+theorem settled_foldl (f : SNode → Constraint → SNode) (hf : ∀ n c, settled n → settled (f n c))
+    (cs : List Constraint) (n : SNode) (h : settled n) : settled (cs.foldl f n) := by
+  induction cs generalizing n with
+  | nil => exact h
+  | cons c cs ih => exact ih (f n c) (hf n c h)
+
+theorem settled_insert (re : Bytes → Bytes → Bool) (n : SNode) (c : Constraint) (h : settled n) :
+    settled (insert re n c) := by
+  cases c with
+  | range r => exact settled_foldl (insertBasic re) (settled_insertBasic re) r.expand n h
+  | atom a => exact settled_insertBasic re n (.atom a) h
+  | type k => exact settled_insertBasic re n (.type k) h
+  | bound b => exact settled_insertBasic re n (.bound b) h
+
+theorem settled_of_mem (re : Bytes → Bytes → Bool) (a : Atom) (cs : List Constraint) (n : SNode)
+    (h : Constraint.atom a ∈ cs) : settled (cs.foldl (insert re) n) := by
+  induction cs generalizing n with
+  | nil => cases h
+  | cons c cs ih =>
+    rcases List.mem_cons.1 h with h' | h'
+    · subst h'
+      exact settled_foldl (insert re) (settled_insert re) cs _ (settled_insertAtom re n a)
+    · exact ih (insert re n c) h'
+
+/-! ### the property theorems (statements are repeated in `Props/C03.lean`) -/
+
+theorem accept_iff (re : Bytes → Bytes → Bool) (cs : List Constraint) (a : Atom)
+    (hreg : Regular cs) (ha : Constraint.atom a ∈ cs) :
+    accepts (evalS re cs) a ↔ Sat re cs a := by
+  obtain ⟨hwf, hden⟩ := fold_den re cs hreg
+  have hfin := finalize_spec re _ hwf
+  have hset := settled_of_mem re a cs SNode.top ha
+  unfold evalS accepts
+  constructor
+  · rintro ⟨b, hb, hsame⟩
+    rw [hb] at hfin
+    exact (hden a).1 (den_congr re _ b a hsame hfin.1)
+  · intro hsat
+    have hd := (hden a).2 hsat
+    cases hres : finalize re (cs.foldl (insert re) SNode.top) with
+    | bottom => rw [hres] at hfin; exact absurd hd (hfin a)
+    | atom b =>
+      rw [hres] at hfin
+      exact ⟨b, rfl, same_symm a b (hfin.2 a hd)⟩
+    | residual k bs =>
+      rw [hres] at hfin
+      exfalso
+      rcases hset with h | h | h
+      · rw [hd.1] at h; cases h
+      · rw [hfin] at h; cases h
+      · have := hd.2.1; rw [h, Kind.has_zero] at this; cases this
+
+theorem bottom_sound (re : Bytes → Bytes → Bool) (cs : List Constraint) (hreg : Regular cs)
+    (h : evalS re cs = .bottom) : ∀ a, ¬ Sat re cs a := by
+  obtain ⟨hwf, hden⟩ := fold_den re cs hreg
+  have hfin := finalize_spec re _ hwf
+  unfold evalS at h
+  rw [h] at hfin
+  intro a hs; exact hfin a ((hden a).2 hs)
+
+theorem pinned (re : Bytes → Bytes → Bool) (cs : List Constraint) (hreg : Regular cs) (b : Atom)
+    (h : evalS re cs = .atom b) : Sat re cs b ∧ ∀ a, Sat re cs a → a.same b = true := by
+  obtain ⟨hwf, hden⟩ := fold_den re cs hreg
+  have hfin := finalize_spec re _ hwf
+  unfold evalS at h
+  rw [h] at hfin
+  exact ⟨(hden b).1 hfin.1, fun a hs => hfin.2 a ((hden a).2 hs)⟩
 
 end CueVerif.Scalar
